@@ -6,6 +6,8 @@ import (
 	"sort"
 	"strconv"
 	"strings"
+	"sync/atomic"
+	"time"
 
 	"github.com/ulikunitz/lz"
 	"github.com/ulikunitz/lz/suffix"
@@ -180,6 +182,42 @@ func (e *xExec) checkSegments(lcp []int32, minLen, maxLen int, cbs []cb, site st
 	e.cnt.inc("s.segments.checked")
 }
 
+// opDeadline bounds one call into the suffix package: a call that does not return within it is
+// reported as a finding of the property (the goroutine cannot be killed and keeps spinning until
+// the process ends).
+var opDeadline = 10 * time.Second
+
+var hangCount atomic.Int64
+
+// timed runs fn with the deadline; false means that fn did not return. A panic of fn is
+// re-raised in the calling goroutine so that the recover of step sees it.
+func (e *xExec) timed(prop, site, detail string, fn func()) bool {
+	if hangCount.Load() >= 4 {
+		// every hung call keeps a core busy for the rest of the run: the defect is
+		// established, later calls of this run are not made
+		e.cnt.inc("impl.skipped-after-hangs")
+		return false
+	}
+	type res struct{ p interface{} }
+	done := make(chan res, 1)
+	go func() {
+		defer func() { done <- res{recover()} }()
+		fn()
+	}()
+	select {
+	case r := <-done:
+		if r.p != nil {
+			panic(r.p)
+		}
+		return true
+	case <-time.After(opDeadline):
+		hangCount.Add(1)
+		e.cnt.inc("impl.hang")
+		e.find(prop, "operation does not return (hang)", site, detail)
+		return false
+	}
+}
+
 func (e *xExec) step(line string) (out string) {
 	e.lines = append(e.lines, line)
 	defer func() {
@@ -217,10 +255,14 @@ func (e *xExec) step(line string) (out string) {
 			for i := range tail {
 				tail[i] = byte(0xC3 ^ i)
 			}
-			if th[0] == 7 && th[1] == 0 {
-				suffix.Sort(tt, sa)
-			} else {
-				suffix.VerifSort(tt, sa, th[0], th[1])
+			if !e.timed("C09", "Sort", fmt.Sprintf("thresholds=%v no return within %v", th, opDeadline), func() {
+				if th[0] == 7 && th[1] == 0 {
+					suffix.Sort(tt, sa)
+				} else {
+					suffix.VerifSort(tt, sa, th[0], th[1])
+				}
+			}) {
+				return "hang"
 			}
 			if !bytes.Equal(tt, t0) {
 				e.find("C09", "Sort modifies t", "Sort", "")
@@ -253,7 +295,9 @@ func (e *xExec) step(line string) (out string) {
 		t := unhx(ws[1])
 		sa := naiveSA(t)
 		l1 := make([]int32, len(t))
-		suffix.LCP(t, nil, nil, l1)
+		if !e.timed("C09", "LCP", fmt.Sprintf("LCP(t, nil, nil, lcp): no return within %v", opDeadline), func() { suffix.LCP(t, nil, nil, l1) }) {
+			return "hang"
+		}
 		l2 := make([]int32, len(t))
 		suffix.LCP(t, append([]int32{}, sa...), nil, l2)
 		inv := make([]int32, len(t))
